@@ -118,7 +118,7 @@ def check_one(mn, m, g, tth, chi, wedge):
             bad('find_omega_general:condition', [o, e] + list(gt), exp)
     if nsol is not None and len(om) != nsol:
         bad('find_omega_general:count', len(om), nsol)
-    if nsol == 2 and abs(om[0] - om[1]) < 1e-9:
+    if nsol == 2 and len(om) == 2 and abs(om[0] - om[1]) < 1e-9:
         bad('find_omega_general:distinct', list(om), 'two different solutions')
     # quart
     omq, etaq = m.find_omega_quart(gin, tth, chi, wedge)
